@@ -2,6 +2,7 @@ import AnySyncModel.Tree.Model
 import AnySyncModel.Tree.Lemmas
 import AnySyncModel.Tree.WaitLemmas
 import AnySyncModel.Tree.ReduceLemmas
+import AnySyncModel.Tree.ReopenLemmas
 /-!
 C06 - change order is a function of the change set; incremental equals rebuilt.
 
@@ -381,5 +382,36 @@ from `3` the order is `3,1,4,2` and from `1` it is `1,2,4` - not the restriction
 example :
     iter 3 [⟨3, [], 0, true⟩, ⟨1, [3], 3, true⟩, ⟨2, [1, 3], 1, false⟩, ⟨4, [1], 1, false⟩] = [3, 1, 4, 2] ∧
     iter 1 [⟨1, [3], 3, true⟩, ⟨2, [1, 3], 1, false⟩, ⟨4, [1], 1, false⟩] = [1, 2, 4] := by decide
+
+/-! ### reopen = before close
+
+`buildFromStorage stored r` (= `treeBuilder.build`: load the stored sequence from the root snapshot on, `AddFast` it
+into an empty tree).  `StoredFor A r rootC rest` (`Tree/ReopenLemmas.lean`) says what the storage holds for an
+in-memory tree with attached changes `A` and root `r`: the loaded sequence `rootC :: rest` has unique ids, contains
+every in-memory change after its previous ids and its snapshot base (the stored order is a linear extension -
+`storage_order_causal` - and `attach` requires the snapshot base), and a stored change that is not in memory is not
+attachable to what is in memory. -/
+
+/-- **reopen**, full strength: the tree built from storage has the root, the attached set, the presented sequence,
+the heads and the last iterated head of the in-memory tree that produced the storage. -/
+def C06_reopen_full : Prop :=
+  ∀ (A : List Change) (r : Nat) (stored : List Change) (rootC : Change) (rest : List Change),
+    stored.dropWhile (·.id != r) = rootC :: rest → StoredFor A r rootC rest →
+    (buildFromStorage stored r).root = some r ∧ (buildFromStorage stored r).att.Perm A ∧
+    (buildFromStorage stored r).unatt = [] ∧
+    iter r (buildFromStorage stored r).att = iter r A ∧
+    headsOf (buildFromStorage stored r).att (iter r (buildFromStorage stored r).att) = headsOf A (iter r A) ∧
+    (buildFromStorage stored r).lastIter = lastOf (headsOf A (iter r A)) r
+
+theorem reopen_eq : C06_reopen_full :=
+  fun A r stored rootC rest hload h => reopen_same A r stored rootC rest hload h
+
+/-- an instance: the storage holds root `1`, snapshot `2`, a concurrent branch `5` off the root and `3` below the
+snapshot; the tree reduced to `2` is rebuilt as `2,3` - the stored change `5` is loaded but not attachable -/
+example :
+    let stored : List Change := [⟨1, [], 0, true⟩, ⟨2, [1], 1, true⟩, ⟨5, [1], 1, false⟩, ⟨3, [2], 2, false⟩]
+    (buildFromStorage stored 2).root = some 2 ∧ (buildFromStorage stored 2).att.map (·.id) = [2, 3] ∧
+    iter 2 (buildFromStorage stored 2).att = [2, 3] ∧ (buildFromStorage stored 2).lastIter = 3 ∧
+    iter 1 (buildFromStorage stored 1).att = [1, 2, 3, 5] := by decide
 
 end AnySync.Props.C06
